@@ -745,6 +745,27 @@ func genC16(g *Rng, tier string, emit func(Op)) {
 			emit(terminatesOp(pl.ln, 1+g.intn(20), fmt.Sprintf("keygen-terminates-%d", pl.ln)))
 		}
 	}
+	// the generator of random quadratic residues (it supplies G and H) on small moduli, where a root
+	// that shares a factor with n is drawn often: every result is a unit and a residue modulo p and q
+	for _, pq := range [][2]int64{{1019, 839}, {1019, 983}, {23, 47}, {7, 11}} {
+		pp, qq := gobig.NewInt(pq[0]), gobig.NewInt(pq[1])
+		n := bi(pq[0] * pq[1])
+		bad, first := 0, ""
+		for i := 0; i < 40000; i++ {
+			x := gabi.VerifRandomQR(n)
+			if x == nil || x.Sign() <= 0 || x.Cmp(n) >= 0 || gobig.Jacobi(x.Go(), pp) != 1 || gobig.Jacobi(x.Go(), qq) != 1 {
+				bad++
+				if first == "" && x != nil {
+					first = x.String()
+				}
+			}
+		}
+		res := "all-residues"
+		if bad > 0 {
+			res = fmt.Sprintf("%d of 40000 results are no quadratic residues of units modulo %d*%d (first: %s)", bad, pq[0], pq[1], first)
+		}
+		emit(Op{"op": "recorded", "class": "randomqr-small-modulus", "label": "all-residues", "nomodel": true, "fkey": "C16/randomqr-small-modulus", "result": res, "n": hx(n)})
+	}
 	// the first candidate for the base S is the degenerate value 0
 	for _, ln := range []int{256, 192, 128} {
 		emit(Op{"op": "keygen-degenerate", "class": "keygen-degenerate-first-S-candidate", "label": "wellformed", "nomodel": true, "fkey": "C16/degenerate-S-candidate",
